@@ -17,6 +17,7 @@ import (
 	"context"
 	"crypto/sha256"
 	"fmt"
+	"net"
 	"os"
 	"path/filepath"
 	"reflect"
@@ -29,12 +30,17 @@ import (
 	"time"
 	"unsafe"
 
+	"github.com/btcsuite/btcd/btcec/v2"
 	"github.com/btcsuite/btcd/btcutil/v2"
 	"github.com/lightningnetwork/lnd/channeldb"
+	"github.com/lightningnetwork/lnd/htlcswitch/hop"
+	"github.com/lightningnetwork/lnd/input"
 	"github.com/lightningnetwork/lnd/invoices"
+	"github.com/lightningnetwork/lnd/kvdb"
 	"github.com/lightningnetwork/lnd/lntypes"
 	"github.com/lightningnetwork/lnd/lnwallet"
 	"github.com/lightningnetwork/lnd/lnwire"
+	"github.com/lightningnetwork/lnd/verifmc/crashdb"
 )
 
 // ---------------------------------------------------------------------------------
@@ -50,6 +56,11 @@ type c08Pay struct {
 	Kind string `json:"kind"`
 	// At: the payment is launched once this many events have been performed.
 	At int `json:"at"`
+	// HashOf (k+1, 0 = none): this payment re-uses the payment hash (and the invoice)
+	// of payment k -- two HTLCs with equal hash and expiry but different amounts travel
+	// through the forwarder (a "shard" pair). The receiver holds one invoice, that of
+	// payment k.
+	HashOf int `json:"hash_of,omitempty"`
 }
 
 // c08Scn is one exploration space: a payment batch plus the budgets of the search.
@@ -89,6 +100,37 @@ type c08Scn struct {
 	// frozen (empty = all). Used to shard one large space over several workers.
 	FaultKinds  []string `json:"fault_kinds,omitempty"`
 	FreezeWires []string `json:"freeze_wires,omitempty"`
+
+	// ---- dimensions added by the axis audit (all off = the fixture as it is) ----------
+
+	// OneDB: Bob's two channels live in ONE database, as the channels of a real node do
+	// (the fixture gives every channel end its own bbolt file, which turns every
+	// cross-channel forwarding-package ack -- SettleFailAcks of a commit diff,
+	// AckSettleFails of the switch for one direction -- into a no-op and hides the second
+	// channel from the switch's own reforwardResponses). The database sits behind the
+	// crashdb wrapper.
+	OneDB bool `json:"one_db,omitempty"`
+	// Crash (needs OneDB) adds the fault "cb:k": the default continuation is performed
+	// while Bob's database refuses every write transaction after the k-th one of that
+	// event (Bob's process dies right after its k-th durable write), then Bob restarts
+	// from disk like "rb". Nothing Bob does after the crash instant survives: all four
+	// wires are cleared, his switch, links, mailboxes and preimage cache are rebuilt.
+	Crash bool `json:"crash,omitempty"`
+	// RejectHTLC: Bob runs with --rejecthtlc (Config.RejectHTLC): every forward is refused.
+	RejectHTLC bool `json:"reject_htlc,omitempty"`
+	// FeeExposureSat (>0): Bob's Config.MaxFeeExposure (switch-level dust exposure
+	// threshold, default 500 000 sat) in satoshi.
+	FeeExposureSat int64 `json:"fee_exposure_sat,omitempty"`
+	// LinkFeeExposureSat (>0): ChannelLinkConfig.MaxFeeExposure of Bob's links.
+	LinkFeeExposureSat int64 `json:"link_fee_exposure_sat,omitempty"`
+	// LongIdle adds the schedule deviation "L" (20 s of virtual time: past the switch's
+	// 10 s log and 15 s ack tickers and the links' 15 s forwarding-package collector)
+	// whenever nothing is deliverable and two ticks changed nothing, i.e. in the middle
+	// of an execution while an HTLC is held or before a late payment, not only in the
+	// terminal drain.
+	LongIdle bool `json:"long_idle,omitempty"`
+	// OnlyLong restricts schedule deviations to "L".
+	OnlyLong bool `json:"only_long,omitempty"`
 }
 
 func c08In(list []string, v string) bool {
@@ -253,6 +295,15 @@ type c08World struct {
 	viols     []c08Viol
 	obs       []string // observation after every event
 	dead      string   // harness-level failure (fixture Fatal, panic)
+
+	// OneDB / Crash
+	cdb      *crashdb.DB // wrapper of Bob's single database (nil: fixture databases)
+	noop     bool        // the last cb:k found at most k writes in its event: nothing new to explore
+	draining bool        // inside the terminal drain
+	// crash accounting (evidence): events crashed, and crashes at the largest enumerated k
+	// (the event may perform more writes than were enumerated)
+	crashes, crashSaturated int
+	maxWrites               map[string]int64
 }
 
 type c08Viol struct {
@@ -282,7 +333,7 @@ func c08Preimage(k int) lntypes.Preimage {
 
 // newC08World builds the network. Must be called inside a synctest bubble.
 func newC08World(t *testing.T, scn c08Scn, dir string, info func(string)) (w *c08World, err error) {
-	w = &c08World{t: t, scn: scn, info: info, frozen: -1}
+	w = &c08World{t: t, scn: scn, info: info, frozen: -1, maxWrites: map[string]int64{}}
 	w.tb = &c08TB{T: t, dir: dir}
 	defer func() {
 		if v := recover(); v != nil {
@@ -322,6 +373,11 @@ func newC08World(t *testing.T, scn c08Scn, dir string, info func(string)) (w *c0
 	}
 	w.chanIDs[0] = lnwire.NewChanIDFromOutPoint(w.chans[0].ChannelPoint())
 	w.chanIDs[1] = lnwire.NewChanIDFromOutPoint(w.chans[2].ChannelPoint())
+	if scn.OneDB || scn.Crash {
+		if err := w.mergeBobDBs(); err != nil {
+			return w, fmt.Errorf("one database for Bob: %v", err)
+		}
+	}
 
 	ok := w.guard(func() {
 		var opts []serverOption
@@ -334,6 +390,7 @@ func newC08World(t *testing.T, scn c08Scn, dir string, info func(string)) (w *c0
 				}
 			})
 		}
+		opts = append(opts, func(_, bob, _ *mockServer) { w.applyBobCfg(bob.htlcSwitch) })
 		n := newThreeHopNetwork(w.tb, w.chans[0], w.chans[1], w.chans[2], w.chans[3], testStartingHeight, opts...)
 		w.hn = &n.hopNetwork
 		w.servers = [3]*mockServer{n.aliceServer, n.bobServer, n.carolServer}
@@ -348,6 +405,7 @@ func newC08World(t *testing.T, scn c08Scn, dir string, info func(string)) (w *c0
 	}
 	for e := range w.links {
 		w.ownRace(e)
+		w.tuneLink(e)
 	}
 	for _, s := range w.servers {
 		if err := s.Start(); err != nil {
@@ -381,13 +439,142 @@ func newC08World(t *testing.T, scn c08Scn, dir string, info func(string)) (w *c0
 		w.startBal[i] = ch.StateSnapshot().LocalBalance
 	}
 	for k, p := range scn.Pays {
-		ps := &c08PayState{c08Pay: p, idx: k, preimage: c08Preimage(k), inID: -1, outID: -1}
+		ps := &c08PayState{c08Pay: p, idx: k, preimage: c08Preimage(c08HashOwner(scn, k)), inID: -1, outID: -1}
 		ps.hash = ps.preimage.Hash()
 		w.pays = append(w.pays, ps)
 	}
 	w.step = 1
 	w.logf("network up: AB chan=%x.. BC chan=%x.. start balances %v", w.chanIDs[0][:4], w.chanIDs[1][:4], w.startBal)
 	return w, nil
+}
+
+// c08HashOwner: the payment whose preimage / hash / invoice payment k uses.
+func c08HashOwner(scn c08Scn, k int) int {
+	if h := scn.Pays[k].HashOf; h > 0 && h-1 < len(scn.Pays) && h-1 != k {
+		return h - 1
+	}
+	return k
+}
+
+// mergeBobDBs moves Bob's ends of both channels into one fresh database behind the
+// crashdb wrapper, before anything has happened on the channels. The fixture's restore
+// closures are bound to the per-channel databases, so Bob's two ends get restore
+// closures of their own (same signer key, same signature pool, same options).
+func (w *c08World) mergeBobDBs() error {
+	dir := w.tb.TempDir()
+	backend, err := kvdb.GetBoltBackend(&kvdb.BoltBackendConfig{
+		DBPath: dir, DBFileName: "channel.db", NoFreelistSync: true,
+		AutoCompact: false, AutoCompactMinAge: kvdb.DefaultBoltAutoCompactMinAge,
+		DBTimeout: kvdb.DefaultDBTimeout,
+	})
+	if err != nil {
+		return err
+	}
+	w.cdb = crashdb.New(backend)
+	db, err := channeldb.CreateWithBackend(w.cdb)
+	if err != nil {
+		return err
+	}
+	priv, pub := btcec.PrivKeyFromBytes(bobPrivKey)
+	addr := &net.TCPAddr{IP: net.ParseIP("127.0.0.1"), Port: 18555}
+	for _, e := range []int{1, 2} {
+		st := w.chans[e].State()
+		old := w.dbs[e]
+		st.Db = db.ChannelStateDB()
+		if err := st.SyncPending(addr, 1); err != nil {
+			return fmt.Errorf("sync %s into the shared database: %v", c08EndName[e], err)
+		}
+		_ = old.Close()
+		_ = os.RemoveAll(old.Path())
+		w.dbs[e] = db
+		op := w.chans[e].ChannelPoint()
+		signer := input.NewMockSigner([]*btcec.PrivateKey{priv}, nil)
+		pool := c08PoolOf(w.chans[e])
+		if pool == nil {
+			pool = lnwallet.NewSigPool(2, signer)
+			if err := pool.Start(); err != nil {
+				return err
+			}
+			w.pools = append(w.pools, pool)
+		}
+		name := c08EndName[e]
+		w.restore[e] = func() (*lnwallet.LightningChannel, error) {
+			stored, err := db.ChannelStateDB().FetchOpenChannels(pub)
+			if err != nil {
+				return nil, fmt.Errorf("fetch %s: %v", name, err)
+			}
+			for _, c := range stored {
+				if c.FundingOutpoint == op {
+					return lnwallet.NewLightningChannel(signer, c, pool,
+						lnwallet.WithLeafStore(&lnwallet.MockAuxLeafStore{}),
+						lnwallet.WithAuxSigner(lnwallet.NewDefaultAuxSignerMock(w.t)))
+				}
+			}
+			return nil, fmt.Errorf("%s not found in the shared database", name)
+		}
+	}
+	return nil
+}
+
+// applyBobCfg sets the non-default options of a scenario on (a new instance of) Bob's switch.
+func (w *c08World) applyBobCfg(s *Switch) {
+	if w.scn.RejectHTLC {
+		s.cfg.RejectHTLC = true
+	}
+	if w.scn.FeeExposureSat > 0 {
+		s.cfg.MaxFeeExposure = lnwire.NewMSatFromSatoshis(btcutil.Amount(w.scn.FeeExposureSat))
+	}
+}
+
+// tuneLink applies per-link options and the onion faults of the batch to a freshly
+// created link: payments of kind "malformed" carry an onion the *receiver* cannot
+// parse, payments of kind "badonion" one that already *Bob* cannot parse. The link's
+// decoder (the fixture's mock) is wrapped: for those payment hashes it reports the
+// BADONION failure code the real sphinx processor reports for a corrupted packet, so
+// the link answers with update_fail_malformed_htlc.
+func (w *c08World) tuneLink(e int) {
+	l := w.links[e]
+	if (e == 1 || e == 2) && w.scn.LinkFeeExposureSat > 0 {
+		l.cfg.MaxFeeExposure = lnwire.NewMSatFromSatoshis(btcutil.Amount(w.scn.LinkFeeExposureSat))
+	}
+	var bad []lntypes.Hash
+	for k, p := range w.scn.Pays {
+		at := -1
+		switch {
+		case p.Kind == "malformed" && p.Dir == "AC":
+			at = 3
+		case p.Kind == "malformed":
+			at = 0
+		case p.Kind == "badonion" && p.Dir == "AC":
+			at = 1
+		case p.Kind == "badonion":
+			at = 2
+		}
+		if at == e {
+			pre := c08Preimage(c08HashOwner(w.scn, k))
+			bad = append(bad, pre.Hash())
+		}
+	}
+	if len(bad) == 0 {
+		return
+	}
+	orig := l.cfg.DecodeHopIterators
+	l.cfg.DecodeHopIterators = func(id []byte, reqs []hop.DecodeHopIteratorRequest, reforward bool) ([]hop.DecodeHopIteratorResponse, error) {
+		resps, err := orig(id, reqs, reforward)
+		if err != nil {
+			return resps, err
+		}
+		out := append([]hop.DecodeHopIteratorResponse{}, resps...) // the mock caches its slice
+		for i := range reqs {
+			for _, h := range bad {
+				if i < len(out) && len(reqs[i].RHash) == 32 && lntypes.Hash(reqs[i].RHash) == h {
+					out[i].HopIterator = nil
+					out[i].FailCode = lnwire.CodeInvalidOnionHmac
+				}
+			}
+		}
+		return out, nil
+	}
 }
 
 // guard runs f on its own goroutine so that a fixture t.Fatal (runtime.Goexit in the
@@ -489,6 +676,64 @@ func (w *c08World) payOfHash(h [32]byte) int {
 	return -1
 }
 
+// Payments that share a payment hash (c08Pay.HashOf) are told apart the way the protocol
+// does: an update_add_htlc by its amount (the two differ), a fulfill / fail by the id of
+// the HTLC it removes. With pairwise distinct hashes these reduce to payOfHash.
+
+func (w *c08World) sameHash(h [32]byte) []*c08PayState {
+	var c []*c08PayState
+	for _, p := range w.pays {
+		if p.hash == lntypes.Hash(h) {
+			c = append(c, p)
+		}
+	}
+	return c
+}
+
+// payOfAdd: the payment an update_add_htlc (or a committed HTLC) of this hash and amount belongs to.
+func (w *c08World) payOfAdd(hash [32]byte, amt lnwire.MilliSatoshi) int {
+	c := w.sameHash(hash)
+	if len(c) == 0 {
+		return -1
+	}
+	if len(c) > 1 {
+		for _, p := range c {
+			if p.launched && (amt == p.htlcAmt || amt == lnwire.MilliSatoshi(p.Amt)) {
+				return p.idx
+			}
+		}
+	}
+	return c[0].idx
+}
+
+// payOfRemoval: the payment whose HTLC #id a fulfill travelling on wire wi removes.
+func (w *c08World) payOfRemoval(wi int, id uint64, hash [32]byte) int {
+	c := w.sameHash(hash)
+	if len(c) == 0 {
+		return -1
+	}
+	if len(c) > 1 {
+		for _, p := range c {
+			_, _, backFrom, back := c08BobWires(p.Dir)
+			if (wi == backFrom && p.outSeen && p.outID == int64(id)) || (wi == back && p.inSeen && p.inID == int64(id)) {
+				return p.idx
+			}
+		}
+	}
+	return c[0].idx
+}
+
+// preimageKnown: a fulfill carrying the preimage of p's hash was delivered to Bob on p's
+// outgoing channel (for p's own outgoing HTLC, or for another one with the same hash).
+func (w *c08World) preimageKnown(p *c08PayState) bool {
+	for _, q := range w.sameHash(p.hash) {
+		if q.Dir == p.Dir && q.preimageAtBob {
+			return true
+		}
+	}
+	return false
+}
+
 // outgoing wire of Bob for a payment direction, and the incoming one.
 func c08BobWires(dir string) (inFromSender, outToReceiver, backFromReceiver, backToSender int) {
 	if dir == "AC" {
@@ -501,9 +746,9 @@ func c08BobWires(dir string) (inFromSender, outToReceiver, backFromReceiver, bac
 func (w *c08World) describe(wi int, m lnwire.Message) string {
 	switch msg := m.(type) {
 	case *lnwire.UpdateAddHTLC:
-		return fmt.Sprintf("add#%d(p%d,%d)", msg.ID, w.payOfHash(msg.PaymentHash), msg.Amount)
+		return fmt.Sprintf("add#%d(p%d,%d)", msg.ID, w.payOfAdd(msg.PaymentHash, msg.Amount), msg.Amount)
 	case *lnwire.UpdateFulfillHTLC:
-		return fmt.Sprintf("ful#%d(p%d)", msg.ID, w.payOfHash(sha256.Sum256(msg.PaymentPreimage[:])))
+		return fmt.Sprintf("ful#%d(p%d)", msg.ID, w.payOfRemoval(wi, msg.ID, sha256.Sum256(msg.PaymentPreimage[:])))
 	case *lnwire.UpdateFailHTLC:
 		return fmt.Sprintf("fail#%d", msg.ID)
 	case *lnwire.UpdateFailMalformedHTLC:
@@ -568,7 +813,7 @@ func (w *c08World) onBobSends(wi int, m lnwire.Message) {
 	switch msg := m.(type) {
 	case *lnwire.UpdateAddHTLC:
 		// Bob forwards (or retransmits) an add on the outgoing channel.
-		k := w.payOfHash(msg.PaymentHash)
+		k := w.payOfAdd(msg.PaymentHash, msg.Amount)
 		if k < 0 {
 			w.violate("forwarder/unknown-add", fmt.Sprintf("Bob sent an update_add_htlc on %s for a hash no payment of the batch uses", c08WireName[wi]))
 			return
@@ -594,7 +839,7 @@ func (w *c08World) onBobSends(wi int, m lnwire.Message) {
 		}
 	case *lnwire.UpdateFulfillHTLC:
 		h := sha256.Sum256(msg.PaymentPreimage[:])
-		k := w.payOfHash(h)
+		k := w.payOfRemoval(wi, msg.ID, h)
 		if k < 0 {
 			w.violate("provenance/unknown-preimage", fmt.Sprintf("Bob sent a fulfill on %s with a preimage of no payment", c08WireName[wi]))
 			return
@@ -605,7 +850,7 @@ func (w *c08World) onBobSends(wi int, m lnwire.Message) {
 			w.violate("provenance/wrong-channel", fmt.Sprintf("Bob sent the fulfill of payment %d on %s", k, c08WireName[wi]))
 			return
 		}
-		if !p.preimageAtBob {
+		if !w.preimageKnown(p) {
 			w.violate(fmt.Sprintf("provenance/settled-without-outgoing-preimage/dir=%s/kind=%s", p.Dir, p.Kind),
 				fmt.Sprintf("Bob settles the incoming HTLC of payment %d (id %d) although no update_fulfill_htlc carrying that preimage was ever delivered to him on the outgoing channel", k, msg.ID))
 		}
@@ -657,7 +902,18 @@ func (w *c08World) checkTwinGone(p *c08PayState, when string) {
 		cm := w.commitHtlcsAll(e)
 		for _, name := range []string{"local", "remote", "pending"} {
 			for _, h := range cm[name] {
-				if h.RHash == [32]byte(p.hash) {
+				if h.RHash != [32]byte(p.hash) {
+					continue
+				}
+				if len(w.sameHash(p.hash)) > 1 {
+					// another payment shares the hash: the twin is the HTLC Bob
+					// offered for *this* payment (by id; by amount if the offer
+					// was never seen on the wire)
+					if (p.outSeen && h.HtlcIndex != uint64(p.outID)) || (!p.outSeen && h.Amt != lnwire.MilliSatoshi(p.Amt)) {
+						continue
+					}
+				}
+				{
 					w.violate(fmt.Sprintf("failback/outgoing-still-committed/dir=%s/kind=%s/where=%s.%s", p.Dir, p.Kind, c08EndName[e], name),
 						fmt.Sprintf("payment %d: the incoming HTLC was failed back by Bob but the outgoing HTLC is present in %s's %s commitment (%s)", p.idx, c08EndName[e], name, when))
 				}
@@ -716,7 +972,7 @@ func (w *c08World) deliver(wi int) {
 	if dest == 1 {
 		switch msg := m.msg.(type) {
 		case *lnwire.UpdateFulfillHTLC:
-			k := w.payOfHash(sha256.Sum256(msg.PaymentPreimage[:]))
+			k := w.payOfRemoval(wi, msg.ID, sha256.Sum256(msg.PaymentPreimage[:]))
 			if k >= 0 {
 				_, _, backFrom, _ := c08BobWires(w.pays[k].Dir)
 				if wi == backFrom {
@@ -724,7 +980,7 @@ func (w *c08World) deliver(wi int) {
 				}
 			}
 		case *lnwire.UpdateAddHTLC:
-			k := w.payOfHash(msg.PaymentHash)
+			k := w.payOfAdd(msg.PaymentHash, msg.Amount)
 			if k >= 0 {
 				in, _, _, _ := c08BobWires(w.pays[k].Dir)
 				if wi == in {
@@ -769,7 +1025,7 @@ func (w *c08World) launch(k int) {
 		invAmt = amt + 1000
 	}
 	var pre *lntypes.Preimage
-	if p.Kind == "valid" || p.Kind == "wrongamt" {
+	if p.Kind == "valid" || p.Kind == "wrongamt" || p.Kind == "malformed" || p.Kind == "badonion" {
 		pre = &p.preimage
 	}
 	invoice, htlc, _, err := generatePaymentWithPreimage(invAmt, htlcAmt, timelock, blob, pre, p.hash, payAddr)
@@ -777,7 +1033,8 @@ func (w *c08World) launch(k int) {
 		w.dead = "generatePayment: " + err.Error()
 		return
 	}
-	if p.Kind != "unknown" {
+	// a payment that re-uses another payment's hash has no invoice of its own
+	if p.Kind != "unknown" && c08HashOwner(w.scn, k) == k {
 		if err := receiver.registry.AddInvoice(context.Background(), *invoice, p.hash); err != nil {
 			w.dead = "AddInvoice: " + err.Error()
 			return
@@ -910,6 +1167,7 @@ func (w *c08World) startLink(e int) error {
 	}
 	w.links[e] = l.(*channelLink)
 	w.ownRace(e)
+	w.tuneLink(e)
 	return nil
 }
 
@@ -940,6 +1198,12 @@ func (w *c08World) restartBob() error {
 	w.stopLink(0)
 	w.stopLink(3)
 	_ = w.servers[1].Stop()
+	if w.cdb != nil {
+		// a crashed database stays crashed until every goroutine of the old
+		// instance has come to rest
+		synctest.Wait()
+		w.cdb.Disarm()
+	}
 	w.mu.Lock()
 	for i := range w.wires {
 		w.wires[i] = nil
@@ -959,6 +1223,7 @@ func (w *c08World) restartBob() error {
 	if w.scn.MailboxExpiryMs > 0 {
 		c08SetMailboxExpiry(nb.htlcSwitch, time.Duration(w.scn.MailboxExpiryMs)*time.Millisecond)
 	}
+	w.applyBobCfg(nb.htlcSwitch)
 	w.intercept(1)
 	for _, e := range []int{0, 1, 2, 3} {
 		if err := w.startLink(e); err != nil {
@@ -978,7 +1243,7 @@ func (w *c08World) restartBob() error {
 // on a frozen wire; else (nothing deliverable) tick until two ticks changed nothing;
 // then unfreeze; then resolve an accepted hold invoice; else the execution is over.
 func (w *c08World) Enabled() []string {
-	if w.dead != "" {
+	if w.dead != "" || w.noop {
 		return nil
 	}
 	// forced: payment launches at their scheduled event count
@@ -990,7 +1255,7 @@ func (w *c08World) Enabled() []string {
 	used := w.devUsed + w.faultsUsed
 	canDev := w.devUsed < w.scn.Dev && used < w.scn.total()
 	canFault := w.faultsUsed < w.scn.Faults && used < w.scn.total()
-	canReorder := canDev && !w.scn.OnlyFreeze
+	canReorder := canDev && !w.scn.OnlyFreeze && !w.scn.OnlyLong
 
 	// deliverable heads, oldest first
 	w.mu.Lock()
@@ -1063,6 +1328,11 @@ func (w *c08World) Enabled() []string {
 	default:
 		return nil // terminal
 	}
+	if w.scn.LongIdle && canDev && !w.scn.OnlyFreeze && len(heads) == 0 && w.idle >= 2 {
+		// the network is idle (an HTLC is held, a wire is slow or a payment is not
+		// due yet): a long pause, past the 10/15 s tickers
+		devs = append(devs, "L")
+	}
 	if w.scn.Freeze && canDev && w.frozen < 0 {
 		w.mu.Lock()
 		for wi := range w.wires {
@@ -1083,8 +1353,69 @@ func (w *c08World) Enabled() []string {
 			}
 			acts = append(acts, f)
 		}
+		if w.scn.Crash && w.cdb != nil && c08In(w.scn.FaultKinds, "cb") &&
+			(len(w.scn.FaultSeq) == 0 || (w.faultsUsed < len(w.scn.FaultSeq) && w.scn.FaultSeq[w.faultsUsed] == "cb")) {
+			for k := 0; k < w.crashMax(def); k++ {
+				acts = append(acts, fmt.Sprintf("cb:%d", k))
+			}
+		}
 	}
 	return acts
+}
+
+// eventKind: "T", or for a delivery the wire and the kind of its head message.
+func (w *c08World) eventKind(a string) string {
+	if !strings.HasPrefix(a, "d:") {
+		if i := strings.IndexAny(a, "0123456789:"); i > 0 {
+			return a[:i]
+		}
+		return a
+	}
+	w.mu.Lock()
+	defer w.mu.Unlock()
+	for wi, n := range c08WireName {
+		if n == a[2:] && len(w.wires[wi]) > 0 {
+			return fmt.Sprintf("%s:%T", a, w.wires[wi][0].msg)
+		}
+	}
+	return a
+}
+
+// crashMax bounds the number of write transactions Bob performs while handling one
+// event, by the kind of the event (measured maxima are reported in the evidence; a crash
+// at the largest enumerated k that still found a further write is counted as
+// crash_k_saturated, i.e. the bound was too small).
+func (w *c08World) crashMax(def string) int {
+	switch {
+	case def == "T":
+		// the batch ticker only makes a link sign if it has updates of its own pending
+		if w.chans[1].NumPendingUpdates(lntypes.Local, lntypes.Remote)+
+			w.chans[2].NumPendingUpdates(lntypes.Local, lntypes.Remote) == 0 {
+			return 0
+		}
+		return 7
+	case def == "d:A>B" || def == "d:C>B":
+		wi := c08WAB
+		if def == "d:C>B" {
+			wi = c08WCB
+		}
+		w.mu.Lock()
+		defer w.mu.Unlock()
+		if len(w.wires[wi]) == 0 {
+			return 0
+		}
+		switch w.wires[wi][0].msg.(type) {
+		case *lnwire.RevokeAndAck:
+			return 10
+		case *lnwire.CommitSig:
+			return 6
+		case *lnwire.ChannelReestablish:
+			return 5
+		default:
+			return 1
+		}
+	}
+	return 0 // the event does not reach Bob
 }
 
 func (w *c08World) invoiceState(p *c08PayState) string {
@@ -1119,9 +1450,17 @@ func (w *c08World) Do(a string) (err error) {
 	}()
 	if a == "L" {
 		// the terminal drain's long sleep (past the switch's 10/15 s tickers); recorded
-		// in the history so that a replay reproduces the same virtual time line
+		// in the history so that a replay reproduces the same virtual time line. With
+		// LongIdle the same pause is also a schedule deviation in the middle of an execution.
 		if w.pending() != 0 {
 			return fmt.Errorf("event L with messages in flight")
+		}
+		if !w.draining && w.scn.LongIdle {
+			for _, e := range w.Enabled() {
+				if e == "L" {
+					w.devUsed++
+				}
+			}
 		}
 		w.events++
 		w.hist = append(w.hist, a)
@@ -1146,9 +1485,18 @@ func (w *c08World) Do(a string) (err error) {
 	if !allowed {
 		return fmt.Errorf("event %s is not enabled here (enabled: %v)", a, en)
 	}
-	isFault := strings.HasPrefix(a, "cut:") || a == "rb"
+	isFault := strings.HasPrefix(a, "cut:") || a == "rb" || strings.HasPrefix(a, "cb:")
 	if a != en[0] && !isFault {
 		w.devUsed++
+	}
+	if w.cdb != nil && !isFault {
+		// measured: Bob's write transactions per event kind (sizes the cb:k enumeration)
+		kind, c0 := w.eventKind(a), w.cdb.Commits()
+		defer func() {
+			if n := w.cdb.Commits() - c0; n > w.maxWrites[kind] {
+				w.maxWrites[kind] = n
+			}
+		}()
 	}
 	w.mu.Lock()
 	w.step++
@@ -1242,6 +1590,49 @@ func (w *c08World) Do(a string) (err error) {
 		if err := w.restartBob(); err != nil {
 			w.dead = err.Error()
 		}
+	case strings.HasPrefix(a, "cb:"):
+		// Bob dies right after the k-th durable write of the default continuation
+		var k int
+		fmt.Sscanf(a, "cb:%d", &k)
+		if w.cdb == nil {
+			return fmt.Errorf("event %s without a crash database", a)
+		}
+		w.faultsUsed++
+		def := en[0]
+		kmax, kind := w.crashMax(def), w.eventKind(def)
+		c0, r0 := w.cdb.Commits(), w.cdb.Refused()
+		w.cdb.CrashAfter(int64(k))
+		switch {
+		case strings.HasPrefix(def, "d:"):
+			for i, n := range c08WireName {
+				if n == def[2:] {
+					w.deliver(i)
+				}
+			}
+		case def == "T":
+			time.Sleep(c08Tick)
+		default:
+			return fmt.Errorf("event %s on a default continuation %s that does not reach Bob", a, def)
+		}
+		c08Quiesce()
+		if w.cdb.Refused() == r0 {
+			// the event performed at most k writes: this is "def; rb", explored anyway
+			w.cdb.Disarm()
+			if n := w.cdb.Commits() - c0; n > w.maxWrites[kind] {
+				w.maxWrites[kind] = n
+			}
+			w.noop = true
+			return nil
+		}
+		w.crashes++
+		if k == kmax-1 {
+			w.crashSaturated++
+		}
+		w.logf("    %s: Bob's database refused %d write transaction(s) after the %d-th of %q; restarting Bob from disk", a, w.cdb.Refused()-r0, k, def)
+		w.frozen = -1
+		if err := w.restartBob(); err != nil {
+			w.dead = err.Error()
+		}
 	default:
 		return fmt.Errorf("unknown event %s", a)
 	}
@@ -1312,7 +1703,7 @@ func (w *c08World) htlcStr(hs []channeldb.HTLC) string {
 		if h.Incoming {
 			d = "in"
 		}
-		s = append(s, fmt.Sprintf("%s#%d:p%d:%d", d, h.HtlcIndex, w.payOfHash(h.RHash), h.Amt))
+		s = append(s, fmt.Sprintf("%s#%d:p%d:%d", d, h.HtlcIndex, w.payOfAdd(h.RHash, h.Amt), h.Amt))
 	}
 	sort.Strings(s)
 	return strings.Join(s, ",")
@@ -1369,11 +1760,14 @@ func (w *c08World) observe() string {
 
 // Key: canonical state for de-duplication. See main_test.go for the argument.
 func (w *c08World) Key() string {
+	if w.noop {
+		return "noop-crash" // a dead end by construction (see Do, cb:k)
+	}
 	var b strings.Builder
 	b.WriteString(w.observe())
 	// the kinds of the faults so far are part of the key: a restarted switch (fresh
 	// mailboxes, circuit map re-read from disk) must never be merged with a mere link flap
-	fmt.Fprintf(&b, "|%s d%d z%d i%d", w.class(), w.devUsed, w.frozen, w.idle)
+	fmt.Fprintf(&b, "|%s d%d z%d i%d", w.faultList(), w.devUsed, w.frozen, w.idle)
 	for _, p := range w.pays {
 		fmt.Fprintf(&b, " %v%v%v%v%v", p.launched, p.resolved, p.bobSettledIn, p.bobFailedIn, p.preimageAtBob)
 		if !p.launched {
@@ -1407,9 +1801,11 @@ func (w *c08World) Key() string {
 // Terminal: wires empty, nothing changes any more. Advance time past every timer
 // and evaluate the conservation clauses.
 func (w *c08World) Terminal() {
-	if w.dead != "" {
+	if w.dead != "" || w.noop {
 		return
 	}
+	w.draining = true
+	defer func() { w.draining = false }()
 	defer func() {
 		if v := recover(); v != nil {
 			w.violate("panic/"+c08Short(fmt.Sprint(v)), fmt.Sprintf("panic during terminal drain: %v", v))
@@ -1475,12 +1871,26 @@ func (w *c08World) terminalOracle() {
 				carolDelta -= int64(p.htlcAmt)
 				aliceDelta += p.Amt
 			}
-			if inv != fmt.Sprintf("settled(%d)", p.Amt) {
+			okInv := inv == fmt.Sprintf("settled(%d)", p.Amt)
+			for _, q := range w.sameHash(p.hash) {
+				// one invoice serves every payment of the hash: it is settled with the
+				// amount of whichever of them was accepted first
+				if inv == fmt.Sprintf("settled(%d)", q.Amt) {
+					okInv = true
+				}
+			}
+			if !okInv {
 				w.violate(fmt.Sprintf("invoice/success-but-%s/dir=%s/kind=%s", c08Short(inv), p.Dir, p.Kind),
 					fmt.Sprintf("payment %d succeeded for the sender but the receiver's invoice is %s", p.idx, inv))
 			}
 		} else {
-			if strings.HasPrefix(res[0], "success") || strings.HasPrefix(inv, "settled") {
+			settledByTwin := false
+			for _, q := range w.sameHash(p.hash) {
+				if r := w.resultsOf(q); q != p && len(r) == 1 && r[0] == "success" {
+					settledByTwin = true
+				}
+			}
+			if strings.HasPrefix(res[0], "success") || (strings.HasPrefix(inv, "settled") && !settledByTwin) {
 				w.violate(fmt.Sprintf("invoice/failed-but-%s/dir=%s/kind=%s", c08Short(inv), p.Dir, p.Kind),
 					fmt.Sprintf("payment %d: sender result %q but the receiver's invoice is %s", p.idx, res[0], inv))
 			}
@@ -1557,6 +1967,23 @@ func (w *c08World) class() string {
 	for _, a := range w.hist {
 		if strings.HasPrefix(a, "cut") || a == "rb" {
 			f = append(f, a)
+		} else if strings.HasPrefix(a, "cb:") {
+			f = append(f, "cb") // the crash position is not part of the case class
+		}
+	}
+	if len(f) == 0 {
+		return "faults=none"
+	}
+	return "faults=" + strings.Join(f, "+")
+}
+
+// faultList: the faults so far with their positions (part of the canonical key: states
+// reached through different crash points are never merged).
+func (w *c08World) faultList() string {
+	var f []string
+	for _, a := range w.hist {
+		if strings.HasPrefix(a, "cut") || a == "rb" || strings.HasPrefix(a, "cb:") {
+			f = append(f, a)
 		}
 	}
 	if len(f) == 0 {
@@ -1599,10 +2026,14 @@ func (w *c08World) Close() {
 		for _, p := range w.pools {
 			_ = p.Stop()
 		}
+		closed := map[*channeldb.DB]bool{}
 		for _, db := range w.dbs {
-			if db != nil {
+			if db != nil && !closed[db] {
+				closed[db] = true
 				_ = db.Close()
-				_ = os.RemoveAll(db.Path())
+				if p := db.Path(); p != "" {
+					_ = os.RemoveAll(p)
+				}
 			}
 		}
 	}()
